@@ -796,6 +796,9 @@ class Executor:
             n = V(ins["len"])
             c = V(ins["cap"])
             if type(n) is not int or type(c) is not int:
+                if self.leak_mode:
+                    # an allocation whose size depends on secret data: the size is a memory-layout / slice-bound leak
+                    path.leaks.append(("slicebound", self.site(path), n if type(n) is not int else c, len(path.pc)))
                 raise ExecError("symbolic make() size")
             st = T(ins["type"])
             et = self.prog.T(st.u.elem_id)
@@ -1042,6 +1045,8 @@ class Executor:
             if isinstance(s, str):
                 raise ExecError("copy from string")
             if type(d.len) is not int or type(s.len) is not int:
+                if self.leak_mode:
+                    path.leaks.append(("slicebound", self.site(path), d.len if type(d.len) is not int else s.len, len(path.pc)))
                 raise ExecError("copy with symbolic length")
             n = min(d.len, s.len)
             if n == 0:
